@@ -8,6 +8,9 @@
  (c) schedules (TS): two real threads with independent parser objects under a settrace baton scheduler;
      all schedules with <= 1 preemption at call granularity (every function call in html5lib is a
      scheduling point), <= 2 preemptions at the calls that touch module-level mutable state.
+ (d) factory histories (FE): all sequences of <= 2 (3) calls of the module-level factories and convenience
+     functions (getTreeBuilder / getTreeWalker with every keyword form, parse, parseFragment, serialize), each history in
+     its own fresh interpreter; every call must return what it returns as the first call of an interpreter.
 Oracle: every call's (tree, errors, exception type) equals that of the same call on a brand-new object in
 a FRESH interpreter (baselines computed once in a subprocess, so process-wide caches are cold).
 """
@@ -354,7 +357,111 @@ def call_with_builder(builder, op):
     return ("ok", engine.digest(canon), [(e[1], e[0][0], e[0][1]) for e in p.errors], p.documentEncoding)
 
 
+# ---- (d) factory histories: module-level caches behind getTreeBuilder / getTreeWalker / parse / serialize --------
+# Every history runs in its OWN fresh interpreter (a long-lived worker would carry the caches of earlier histories);
+# the baseline of an operation is the history consisting of that operation alone.
+
+FPROBE = "<!DOCTYPE html><!--c--><p a=1>x<svg><a xlink:href=u>y</a></svg><br>"
+FOPS = ["etree", "etree fullTree=True", "etree fullTree=False", "dom", "etree ns=False", "dom ns=False",
+        "etree fullTree=True + etree walker", "dom + dom walker", "html5lib.serialize(tree='etree')",
+        "etree implementation=ElementTree fullTree=True", "html5lib.parse default", "etree walker implementation=ElementTree",
+        "html5lib.parseFragment treebuilder=dom"]
+
+
+def factory_op(k):
+    import xml.etree.ElementTree as ET
+    import html5lib
+    from html5lib import treebuilders, treewalkers
+
+    def toks(walker, d):
+        return [[t["type"], t.get("name"), t.get("namespace"),
+                 sorted([list(a), v] for a, v in t["data"].items()) if isinstance(t.get("data"), dict) else t.get("data")]
+                for t in walker(d)]
+
+    def parsed(tb, ns=True):
+        p = html5lib.HTMLParser(tb, namespaceHTMLElements=ns)
+        d = p.parse(FPROBE)
+        return p, d
+    if k in (0, 1, 2, 3, 4, 5, 9):
+        tb = {0: lambda: treebuilders.getTreeBuilder("etree"), 1: lambda: treebuilders.getTreeBuilder("etree", fullTree=True),
+              2: lambda: treebuilders.getTreeBuilder("etree", fullTree=False), 3: lambda: treebuilders.getTreeBuilder("dom"),
+              4: lambda: treebuilders.getTreeBuilder("etree"), 5: lambda: treebuilders.getTreeBuilder("dom"),
+              9: lambda: treebuilders.getTreeBuilder("etree", implementation=ET, fullTree=True)}[k]()
+        p, d = parsed(tb, ns=k not in (4, 5))
+        return [type(d).__name__, p.tree.testSerializer(d)]
+    if k == 6:
+        p, d = parsed(treebuilders.getTreeBuilder("etree", fullTree=True))
+        return toks(treewalkers.getTreeWalker("etree"), d)
+    if k == 7:
+        p, d = parsed(treebuilders.getTreeBuilder("dom"))
+        return toks(treewalkers.getTreeWalker("dom"), d)
+    if k == 8:
+        return html5lib.serialize(html5lib.parse(FPROBE), tree="etree")
+    if k == 10:
+        d = html5lib.parse(FPROBE)
+        return [type(d).__name__, getattr(d, "tag", None), len(list(d.iter()))]
+    if k == 11:
+        p, d = parsed(treebuilders.getTreeBuilder("etree", fullTree=True))
+        return toks(treewalkers.getTreeWalker("etree", implementation=ET), d)
+    if k == 12:
+        d = html5lib.parseFragment("<td>x", container="tr", treebuilder="dom")
+        return [type(d).__name__, d.toxml()]
+    raise ValueError(k)
+
+
+def _factory_history(word):
+    code = r'''
+import sys, json
+sys.path.insert(0, %r); sys.path.insert(0, %r)
+from mc import engine; engine.use_repo()
+from checks import c12_reuse as c
+out = []
+for k in %r:
+    try:
+        out.append(c.factory_op(k))
+    except Exception as e:
+        out.append(["raised", type(e).__name__, str(e)[:100]])
+print(json.dumps(out))
+''' % (engine.VERIF_DIR, engine.REPO, list(word))
+    env = dict(os.environ)
+    env["PYTHONHASHSEED"] = "0"
+    r = subprocess.run([sys.executable, "-c", code], capture_output=True, text=True, env=env, timeout=120)
+    if r.returncode != 0:
+        return word, [["interpreter-failed", r.stderr[-300:]]]
+    return word, json.loads(r.stdout.strip().splitlines()[-1])
+
+
+def factory_histories(depth):
+    import itertools
+    n = len(FOPS)
+    base = {}
+    for word, obs in engine.pmap(_factory_history, [(k,) for k in range(n)], chunksize=1):
+        base[word[0]] = obs[0]
+    viol = {}
+    count = n
+    words = [w for m in range(2, depth + 1) for w in itertools.product(range(n), repeat=m)]
+    for word, obs in engine.pmap(_factory_history, words, chunksize=1):
+        count += 1
+        for i, k in enumerate(word):
+            if i >= len(obs) or obs[i] != base[k]:
+                cls = "factory-history:%s" % FOPS[k].split()[0]
+                case = [FOPS[x] for x in word[:i + 1]]
+                if cls not in viol or len(case) < len(viol[cls].case):
+                    viol[cls] = engine.Violation(H, {"kind": "factory"}, case, base[k], obs[i] if i < len(obs) else None,
+                                                 "'%s' after %s gives a different result than in a fresh interpreter" % (
+                                                     FOPS[k], " ; ".join(repr(FOPS[x]) for x in word[:i]) or "nothing"), cls)
+                break
+    return count, list(viol.values())
+
+
 def execute(config, case):
+    if config.get("kind") == "factory":
+        word = tuple(FOPS.index(x) for x in case)
+        _, obs = _factory_history(word)
+        _, b = _factory_history(word[-1:])
+        if obs[-1] == b[0]:
+            return None
+        return engine.Violation(H, config, case, b[0], obs[-1], "factory history result differs from a fresh interpreter's", "factory-history")
     global _BASE
     if not _BASE:
         _BASE, _ = compute_baselines()
@@ -382,7 +489,7 @@ def replay(harness, config, case):
 def run(run):
     global _BASE
     quick = run.tier == "quick"
-    only = os.environ.get("VERIF_PARTS", "a,b,ser,c").split(",")
+    only = os.environ.get("VERIF_PARTS", "a,b,ser,d,c").split(",")
     engine.close_pool()
     _BASE, base2 = compute_baselines()
     if _BASE != base2:
@@ -414,6 +521,11 @@ def run(run):
     if "ser" in only:
         n, viol = serializer_histories(2 if quick else 3)
         run.set("serializer_history_calls", n)
+        for v in viol:
+            classes.setdefault(v.diff_class, v)
+    if "d" in only:
+        n, viol = factory_histories(2 if quick else 3)
+        run.set("factory_histories_each_in_a_fresh_interpreter", n)
         for v in viol:
             classes.setdefault(v.diff_class, v)
     for v in classes.values():
